@@ -433,7 +433,11 @@ fn parse_str_to_newer_args(input: &str) -> Option<(String, String)> {
 /// Creates a file if it doesn't exist.
 /// If it does exist, it will be overwritten.
 fn get_or_create_file(path: &str) -> Result<File, Box<dyn Error>> {
-    let file = File::create(path)?;
+    // Start from an empty file, then write in append mode: several actions may name the
+    // same file, and each has its own descriptor - with plain offsets they would
+    // overwrite one another's output.
+    File::create(path)?;
+    let file = std::fs::OpenOptions::new().append(true).open(path)?;
     Ok(file)
 }
 
